@@ -681,6 +681,8 @@ class StmtMixin:
             if key[0] == '$alive':
                 r = z3.Int(fresh_name('r'))   # allocation only grows
                 st.assume(z3.ForAll([r], z3.Implies(z3.Select(cur, r), z3.Select(new, r)), patterns=[z3.Select(cur, r)]))
+            if key[0] == '$clock':
+                st.assume(z3.Select(new, 0) >= z3.Select(cur, 0))    # the clock only advances
             st.heap[key] = new
         for n in names:
             if n in st.env:
